@@ -1,6 +1,7 @@
 package main
 
 import (
+	"context"
 	"fmt"
 	"runtime"
 	"sort"
@@ -10,9 +11,12 @@ import (
 
 	"github.com/smart-core-os/sc-api/go/traits"
 	"google.golang.org/grpc/codes"
+	"google.golang.org/grpc/status"
 	"google.golang.org/protobuf/proto"
 
 	"github.com/smart-core-os/sc-golang/internal/verif/vk"
+	"github.com/smart-core-os/sc-golang/pkg/resource"
+	"github.com/smart-core-os/sc-golang/pkg/trait/electricpb"
 )
 
 // concRes is what one worker saw of one of its operations.
@@ -138,6 +142,11 @@ func concurrent(r *vk.Run) {
 							if out.ok() && !o.AM {
 								report("C19/active-deleted/delete@concurrent", "worker %d: %s [id %q] succeeded while %q was the active mode before and after the call and no set-active/change-active/clear-active overlapped it", p, o, id, id)
 							}
+						}
+						// with allow-missing the mode is, at the moment the delete takes effect, either present (deleted, or refused
+						// because it is active) or absent (success): NotFound has no place in any interleaving
+						if o.AM && out.code() == codes.NotFound {
+							report("C19/delete-absent/"+kop+"/allow-missing-notfound", "worker %d: %s [id %q] with allow-missing returned NotFound (%s)", p, o, id, errStr(out.Err))
 						}
 						// an id nobody ever adds is absent in every interleaving
 						if o.Target == "ghost" {
@@ -311,6 +320,88 @@ func concurrent(r *vk.Run) {
 		lossy.cancel()
 		if r.WantSample("concurrent-" + mix) {
 			r.Sample("concurrent-"+mix, map[string]any{"case": i, "workers": nw, "initial_modes": initDesc, "results": results, "final": final.String(), "modes_events": len(evs), "active_events": len(aevs), "snapshots": snapshots, "clean_windows": windows})
+		}
+	}
+}
+
+
+// deleteStorm: several goroutines released together delete the same existing, non-active mode (Model API or
+// ModelServer RPC). With allow-missing every one of them succeeds; without it exactly one does and the others get
+// NotFound; afterwards the mode is gone and the active mode untouched.
+func deleteStorm(r *vk.Run) {
+	rounds := r.Pick(6000, 200000)
+	t := newTally()
+	defer t.flush(r)
+	w := newWorld(&tickClock{}, r.Seed+99, false, &traits.ElectricMode{Id: "keep", Normal: true})
+	if _, err := w.m.ChangeActiveMode("keep"); err != nil {
+		r.Inconclusive("c19-storm-setup", err.Error())
+		return
+	}
+	for i := 0; i < rounds; i++ {
+		if !r.Mine(i) {
+			continue
+		}
+		rng := r.CaseRand("c19-storm", i)
+		id := fmt.Sprintf("m%d", i)
+		if err := w.m.AddMode(&traits.ElectricMode{Id: id, Title: "storm"}); err != nil {
+			r.Violation("C19/panic/storm-setup", fmt.Sprintf("round %d: AddMode(%s): %v", i, id, err), nil)
+			return
+		}
+		k := rng.Range(2, 4)
+		am := rng.Chance(2, 3)
+		server := rng.Bool()
+		door := "model"
+		if server {
+			door = "server"
+		}
+		start := make(chan struct{})
+		errs := make([]error, k)
+		var wg sync.WaitGroup
+		for g := 0; g < k; g++ {
+			g := g
+			wg.Add(1)
+			go func() {
+				defer wg.Done()
+				<-start
+				if server {
+					_, errs[g] = w.srv.DeleteMode(context.Background(), &electricpb.DeleteModeRequest{Id: id, AllowMissing: am})
+				} else {
+					errs[g] = w.m.DeleteMode(id, resource.WithAllowMissing(am))
+				}
+			}()
+		}
+		close(start)
+		wg.Wait()
+		t.evals++
+		t.count("storm:rounds")
+		okN, nfN := 0, 0
+		var other []string
+		for _, e := range errs {
+			switch status.Code(e) {
+			case codes.OK:
+				okN++
+			case codes.NotFound:
+				nfN++
+			default:
+				other = append(other, e.Error())
+			}
+		}
+		t.seen(fmt.Sprintf("storm:%s:am=%v:k=%d:ok=%d:nf=%d", door, am, k, okN, nfN))
+		replay := map[string]any{"stream": "storm", "round": i, "door": door, "allow_missing": am, "deleters": k}
+		switch {
+		case len(other) > 0:
+			r.Violation("C19/delete-absent/delete@"+door+"/storm-other-error", fmt.Sprintf("round %d: %d concurrent deletes (allow_missing=%v) of the existing, non-active mode %q: unexpected errors %v", i, k, am, id, other), replay)
+		case am && nfN > 0:
+			r.Violation("C19/delete-absent/delete-allow-missing@"+door+"/allow-missing-notfound", fmt.Sprintf("round %d: %d concurrent deletes with allow-missing of the existing mode %q: %d succeeded, %d returned NotFound", i, k, id, okN, nfN), replay)
+		case !am && okN != 1:
+			r.Violation("C19/delete-absent/delete@"+door+"/storm-winners", fmt.Sprintf("round %d: %d concurrent deletes without allow-missing of the existing mode %q: %d succeeded (want exactly 1), %d NotFound", i, k, id, okN, nfN), replay)
+		}
+		if _, still := w.m.FindMode(id); still {
+			r.Violation("C19/delete-absent/delete@"+door+"/storm-still-present", fmt.Sprintf("round %d: mode %q still exists after %d deletes returned", i, id, k), replay)
+		}
+		if a := w.m.ActiveMode(); a.GetId() != "keep" {
+			r.Violation("C19/active-missing/storm", fmt.Sprintf("round %d: active mode became %q", i, a.GetId()), replay)
+			return
 		}
 	}
 }
